@@ -789,7 +789,10 @@ def static_audit(pkg_parent: str) -> dict:
                         mv = mutable_value(n.value)
                         for x in n.targets if isinstance(n, ast.Assign) else [n.target]:
                             if isinstance(x, ast.Name) and mv:
-                                hits.append(("class-level", mod, f"{c.name}.{x.id}", mv))
+                                if mv == "container" and x.id not in mutated and AUDITED.get(("class-level", mod, f"{c.name}.{x.id}")) is None:
+                                    auto += 1  # a constant table on the class: no function of the package writes a binding of that name
+                                else:
+                                    hits.append(("class-level", mod, f"{c.name}.{x.id}", mv))
             if isinstance(c, (ast.FunctionDef, ast.AsyncFunctionDef, ast.Lambda)):
                 a = c.args
                 pos = a.posonlyargs + a.args
@@ -797,7 +800,10 @@ def static_audit(pkg_parent: str) -> dict:
                 for arg, d in pairs:
                     mv = mutable_value(d)
                     if mv:
-                        hits.append(("mutable-default", mod, f"{getattr(c, 'name', '<lambda>')}.{arg.arg}", mv))
+                        if mv == "container" and arg.arg not in mutated and AUDITED.get(("mutable-default", mod, f"{getattr(c, 'name', '<lambda>')}.{arg.arg}")) is None:
+                            auto += 1  # never written through that name anywhere in the package
+                        else:
+                            hits.append(("mutable-default", mod, f"{getattr(c, 'name', '<lambda>')}.{arg.arg}", mv))
     unaudited, failed = [], []
     for kind, mod, name, what in hits:
         entry = AUDITED.get((kind, mod, name))
